@@ -1,7 +1,10 @@
 """A private TypeVar used by a public signature is omitted from the stub, which then names an undefined `_T`.
 
 Exit status 1 = defect present, 0 = absent, 2 = inconclusive (preconditions of the input failed).
-Mechanism keys: stub-typecheck:parse-only:name-defined:private-typevar-omitted-but-referenced, stub-typecheck:semantic:name-defined:private-typevar-omitted-but-referenced"""
+Mechanism keys:
+  stub-typecheck:parse-only:name-defined:private-typevar-omitted-but-referenced
+  stub-typecheck:semantic:name-defined:private-typevar-omitted-but-referenced
+"""
 import os
 import sys
 
